@@ -20,6 +20,8 @@ type CleanCase struct {
 	// Spokfile: how the spokfile is named on the command line: "" (found from cwd), "abs" (--spokfile /abs/path),
 	// "rel" (--spokfile <path relative to cwd>, e.g. ./spokfile, ../spokfile or proj/spokfile from $HOME)
 	Spokfile string `json:"spokfile,omitempty"`
+	// Links are symbolic links in the project tree: path -> target (target relative to the link's directory)
+	Links map[string]string `json:"links,omitempty"`
 	FromHome bool   `json:"from_home,omitempty"` // invoke from $HOME (the parent of the project); needs Spokfile != ""
 }
 
@@ -108,6 +110,14 @@ func (cleanScen) Gen(r *Rng, cfg GenConfig) any {
 		c.RemoveErr = r.Intn(3)
 	}
 	c.Prog.Layout = r.Intn(6)
+	if r.Chance(1, 5) {
+		// links whose names match the output pool / output globs and whose targets are NOT outputs
+		c.Links = map[string]string{}
+		for _, l := range Subset(r, [][2]string{{"out/include", "../src"}, {"out/keep.o", "../keep.txt"}, {"bin/app", "../src/main.c"}, {"z.o", "docs/readme.md"}, {"out/dangling.o", "../nowhere"}}, 1, 2) {
+			c.Links[l[0]] = l[1]
+		}
+		c.Tree["keep.txt"], c.Tree["src/main.c"], c.Tree["docs/readme.md"] = "x", "x", "x"
+	}
 	if r.Chance(1, 4) {
 		c.Spokfile = Pick(r, []string{"abs", "rel", "rel"})
 		if c.Cwd == "" && r.Chance(1, 2) {
@@ -147,6 +157,20 @@ func (cleanScen) Exec(w *World, cc any, prop string) *Result {
 	for _, t := range c.Prog.Tasks {
 		for i := 0; i < t.NCmd; i++ {
 			writeFile(filepath.Join(w.Ctl, fmt.Sprintf("%s_%d", t.Name, i)), "true\n")
+		}
+	}
+	for _, l := range sortedKeys(c.Links) {
+		if _, isFile := model[l]; isFile || conflictsWithFile(model, l) {
+			continue
+		}
+		full := filepath.Join(proj, filepath.FromSlash(l))
+		must(os.MkdirAll(filepath.Dir(full), 0o755))
+		os.Remove(full)
+		if err := os.Symlink(filepath.FromSlash(c.Links[l]), full); err == nil {
+			// for the reference matcher a link is an entry of the tree like a file (it is the link
+			// that an output designates, never what it points to)
+			model[l] = "->" + c.Links[l]
+			res.count("fault_present:symlink_in_tree")
 		}
 	}
 	cwd := filepath.Join(proj, filepath.FromSlash(c.Cwd))
@@ -456,6 +480,9 @@ func (cleanScen) Shrinks(cc any) []any {
 	}
 	for _, f := range sortedKeys(c.Tree) {
 		add(func(n *CleanCase) { delete(n.Tree, f) })
+	}
+	for _, l := range sortedKeys(c.Links) {
+		add(func(n *CleanCase) { delete(n.Links, l) })
 	}
 	for i := range c.Dirs {
 		add(func(n *CleanCase) { n.Dirs = append(n.Dirs[:i:i], n.Dirs[i+1:]...) })
